@@ -1,6 +1,7 @@
 import OrsoVerif.Generated.Distogram
 import OrsoVerif.Generated.DistogramExpr
 import OrsoVerif.Generated.DistogramFlow
+import OrsoVerif.Generated.DistogramOps
 /-!
 # C13 — the streaming histogram of `orso/profiler/distogram/__init__.py`
 
@@ -21,7 +22,9 @@ Counts live in `K` as well (Python: ints; exact in `Float` below 2^53).
 The *arithmetic* (centroid and count of a merge in `_trim` and in `_trim_in_place`, bulk-load
 midpoint, `load`'s cached difference, the in-place search) is not written here: it is
 `Gen.DistogramExpr.*`, regenerated from the source's AST on every run; so are the loop kind and guard of `_trim`
-and the tests of `update` (`Gen.DistogramFlow.*`); this file is the skeleton.  `Lemmas/Distogram.lean` proves the
+and the tests of `update` (`Gen.DistogramFlow.*`), and the statements around them — the bounds of `__add__` and
+`bulkload`, the `if`/`elif` shape of the bound updates, the guards and tests of `_update_diffs`, the positions `_trim`
+reads, pops and refreshes (`Gen.DistogramOps.*`); this file is the skeleton.  `Lemmas/Distogram.lean` proves the
 `*_def` equations that give each generated test the meaning the proofs use.
 -/
 namespace Distogram
@@ -29,6 +32,8 @@ open Gen.DistogramExpr (trimCentre trimCount inPlaceCentre inPlaceCount bulkMid 
   searchPickLeft searchInPlace)
 open Gen.DistogramFlow (trimTurns trimGuard updCountBad updFirst updLast bisectKeyCount hitTest hitCount inPlaceTry
   inPlaceTake bumpMin bumpMax)
+open Gen.DistogramOps (addGuard addMin addMax bulkTake bulkFresh bulkMin bulkMax bumpChained appendMinDiff udLeft udRight
+  udStale udLower udGap trimKeep trimPopBin trimPopDiff trimRefresh trimStored inPlaceStored)
 
 variable {K : Type} [Add K] [Sub K] [Mul K] [Div K] [LT K] [LE K]
   [DecidableLT K] [DecidableLE K] [OfNat K 0] [OfNat K 1] [OfNat K 2]
@@ -36,8 +41,10 @@ variable {K : Type} [Add K] [Sub K] [Mul K] [Div K] [LT K] [LE K]
 /-- Python `a == b` on numbers, through the order (no `DecidableEq Float`). -/
 def eqK (a b : K) : Bool := Gen.DistogramExpr.eqK a b
 
-/-- The merged centre of `_trim` (`(v1 * f1 + v2 * f2) / (f1 + f2)` in the source as it is now). -/
-def centroid (v1 f1 v2 f2 : K) : K := trimCentre v1 f1 v2 f2
+/-- The merged centre of `_trim`: the computed centre (`(v1 * f1 + v2 * f2) / (f1 + f2)` in the source as it is now)
+as it is stored — kept within the pair `v1 < v2` it replaces (`min(max(centre, v1), v2)`: the identity in exact
+arithmetic, a guard against rounding in floating point; both generated). -/
+def centroid (v1 f1 v2 f2 : K) : K := trimStored (trimCentre v1 f1 v2 f2) v1 v2
 
 /-! ## Stage 1: the reference algorithm -/
 
@@ -180,11 +187,11 @@ def listMin : List K → Option K
   | [] => none
   | x :: xs => some (xs.foldl (fun m y => if y < m then y else m) x)
 
-/-- `x < h.min_diff` where `none` is +∞. -/
+/-- `x < h.min_diff` (the lowering test of `_update_diffs`, generated) where `none` is +∞. -/
 def ltMinDiff (x : K) (m : Option K) : Bool :=
   match m with
   | none => true
-  | some y => decide (x < y)
+  | some y => udLower x y
 
 /-- `diff < h.min_diff` of `_search_in_place_index` (generated test), `none` is +∞. -/
 def closerThanMin (x : K) (m : Option K) : Bool :=
@@ -192,11 +199,11 @@ def closerThanMin (x : K) (m : Option K) : Bool :=
   | none => true
   | some y => searchInPlace x y
 
-/-- `x == h.min_diff` where `none` is +∞. -/
+/-- `x == h.min_diff` (the stale-minimum test of `_update_diffs`, generated) where `none` is +∞. -/
 def eqMinDiff (x : K) (m : Option K) : Bool :=
   match m with
   | none => false
-  | some y => eqK x y
+  | some y => udStale x y
 
 /-- `list.index(x)`: first position holding a value equal to `x`. -/
 def indexOf (x : K) : List K → Option Nat
@@ -223,7 +230,7 @@ def diffBlock (bins : List (K × K)) (st : List K × Option K × Bool) (c : Bool
     Except String (List K × Option K × Bool) :=
   if c then
     match bins[j + 1]?, bins[j]? with
-    | some bn, some bi => pointUpdate st j (bn.1 - bi.1)
+    | some bn, some bi => pointUpdate st j (udGap bi.1 bn.1)
     | _, _ => .error "IndexError"
   else .ok st
 
@@ -242,8 +249,8 @@ def updateDiffs (h : Hist K) (i : Nat) : Except String (Hist K) :=
   match h.diffs with
   | none => .ok h
   | some d0 =>
-    (diffBlock h.bins (d0, h.minDiff, false) (decide (0 < i)) (i - 1)).bind fun s1 =>
-    (diffBlock h.bins s1 (decide (i + 1 < h.bins.length)) i).bind fun s2 =>
+    (diffBlock h.bins (d0, h.minDiff, false) (udLeft (i : Int) (h.bins.length : Int)) (i - 1)).bind fun s1 =>
+    (diffBlock h.bins s1 (udRight (i : Int) (h.bins.length : Int)) i).bind fun s2 =>
     (finishMin s2).bind fun md =>
     .ok { h with diffs := some s2.1, minDiff := md }
 
@@ -266,13 +273,15 @@ def trimIndex (h : Hist K) : Except String Nat :=
 /-- One turn of the `while` loop of `_trim` (:211-224). -/
 def trimStep (h : Hist K) : Except String (Hist K) :=
   (trimIndex h).bind fun i =>
-  match h.bins[i]?, h.bins[i + 1]? with
+  -- `v1, f1 = h.bins[i]`, `v2, f2 = h.bins.pop(i + 1)`, `h.bins[i] = …`, `h.diffs.pop(i)`, `_update_diffs(h, i)`: the
+  -- four positions are the source's (generated)
+  match h.bins[trimKeep i]?, h.bins[trimPopBin i]? with
   | some (v1, f1), some (v2, f2) =>
-    let bins := (h.bins.eraseIdx (i + 1)).set i (trimCentre v1 f1 v2 f2, trimCount v1 f1 v2 f2)
+    let bins := (h.bins.eraseIdx (trimPopBin i)).set (trimKeep i) (centroid v1 f1 v2 f2, trimCount v1 f1 v2 f2)
     match h.diffs with
     | some d =>
-      if d.length ≤ i then .error "IndexError" else
-      (updateDiffs { h with bins := bins, diffs := some (d.eraseIdx i) } i).bind fun h1 =>
+      if d.length ≤ trimPopDiff i then .error "IndexError" else
+      (updateDiffs { h with bins := bins, diffs := some (d.eraseIdx (trimPopDiff i)) } (trimRefresh i)).bind fun h1 =>
       match h1.diffs.bind listMin with
       | some m => .ok { h1 with minDiff := some m }
       | none => .error "ValueError"
@@ -315,7 +324,8 @@ def searchInPlaceIndex (h : Hist K) (value : K) (idx : Nat) : Except String (Opt
 def trimInPlace (h : Hist K) (value count : K) (ib : Nat) : Except String (Hist K) :=
   match h.bins[ib]? with
   | some (cv, cf) =>
-    updateDiffs { h with bins := h.bins.set ib (inPlaceCentre cv cf value count, inPlaceCount cv cf value count) } ib
+    updateDiffs { h with bins := h.bins.set ib (inPlaceStored (inPlaceCentre cv cf value count) cv value,
+                                                inPlaceCount cv cf value count) } ib
   | none => .error "IndexError"
 
 /-- The insertion of `update` (:301-311) with its cache bookkeeping. -/
@@ -327,7 +337,7 @@ def insertBin (h : Hist K) (neg : Bool) (idx : Nat) (value count : K) : Except S
       .ok { h with bins := h.bins ++ [(value, count)], diffs := some (d ++ [diff]),
                    minDiff := some (match h.minDiff with
                                     | none => diff
-                                    | some m => if diff < m then diff else m) }
+                                    | some m => appendMinDiff m diff) }
     | _, _ => .ok { h with bins := h.bins ++ [(value, count)] }
   else
     match h.diffs with
@@ -335,14 +345,19 @@ def insertBin (h : Hist K) (neg : Bool) (idx : Nat) (value count : K) : Except S
       updateDiffs { h with bins := h.bins.insertIdx idx (value, count), diffs := some (d.insertIdx idx (0 : K)) } idx
     | none => .ok { h with bins := h.bins.insertIdx idx (value, count) }
 
-/-- `h.min` / `h.max` after an insertion (:313-316). -/
+/-- `h.min` / `h.max` after an insertion (:318-321): two statements.  `bumpChained` (generated) says whether the second
+is an `elif` of the first — then the maximum is left alone whenever the minimum moved. -/
 def bumpBounds (h : Hist K) (value : K) : Hist K :=
   { h with min := some (match h.min with
                         | none => value
                         | some m => if bumpMin m value then value else m),
-           max := some (match h.max with
-                        | none => value
-                        | some m => if bumpMax m value then value else m) }
+           max := if bumpChained && (match h.min with
+                                     | none => true
+                                     | some m => bumpMin m value)
+                  then h.max
+                  else some (match h.max with
+                             | none => value
+                             | some m => if bumpMax m value then value else m) }
 
 /-- insert (:301-311), bounds (:313-316), `_trim` (:318) -/
 def insertTrim (h : Hist K) (neg : Bool) (idx : Nat) (value count : K) : Except String (Hist K) :=
@@ -377,23 +392,26 @@ def update (h : Hist K) (value count : K) : Except String (Hist K) :=
 def merge (h : Hist K) (other : List (K × K)) : Except String (Hist K) :=
   other.foldlM (fun acc b => update acc b.1 b.2) h
 
-/-- `Distogram.__add__` (:77-82), as repaired: an empty right operand adds nothing. -/
+/-- `Distogram.__add__` (:78-84), as repaired: an empty right operand adds nothing.  The test on the operand and the
+two bound expressions are the source's (generated); `min(None, x)` is Python's `TypeError`. -/
 def add (h t : Hist K) : Except String (Hist K) :=
   (merge h t.bins).bind fun m =>
-  match m.min, m.max, t.min, t.max with
-  | some a, some b, some c, some d =>
-    .ok { m with min := some (if c < a then c else a), max := some (if b < d then d else b) }
-  | _, _, none, _ => .ok m
-  | _, _, _, _ => .error "TypeError"
+  if addGuard t.min t.max then
+    match m.min, m.max, t.min, t.max with
+    | some a, some b, some c, some d => .ok { m with min := some (addMin a c), max := some (addMax b d) }
+    | _, _, _, _ => .error "TypeError"
+  else .ok m
 
 /-- `bulkload` (:84-113) after numpy: pairs with a positive count are inserted, then the bounds
 are widened to the data's. -/
 def bulk (h : Hist K) (pairs : List (K × K)) (lo hi : K) : Except String (Hist K) :=
-  ((pairs.filter (fun p => decide (0 < p.2))).foldlM (fun acc b => update acc b.1 b.2) h).bind fun m =>
-  match m.min, m.max with
-  | some a, some b =>
-    .ok { m with min := some (if lo < a then lo else a), max := some (if b < hi then hi else b) }
-  | _, _ => .ok { m with min := some lo, max := some hi }
+  -- the guard of the loop, the "no bounds yet" test and the two bound expressions are the source's (generated)
+  ((pairs.filter (fun p => bulkTake p.2)).foldlM (fun acc b => update acc b.1 b.2) h).bind fun m =>
+  if bulkFresh m.min m.max then .ok { m with min := some lo, max := some hi }
+  else
+    match m.min, m.max with
+    | some a, some b => .ok { m with min := some (bulkMin a lo), max := some (bulkMax b hi) }
+    | _, _ => .error "TypeError"
 
 /-- `load(bins, minimum, maximum)` (:132-147); the cached difference is the generated `loadDiff`. -/
 def loadDiffsFrom (prev : K) : List (K × K) → List K
